@@ -163,6 +163,61 @@ CHECKS = {
         level_note="certificate checking of recorded runs, not a proof about the Go code",
         technique="Lean 4 proven certificate checker over histories recorded from real 3-replica clusters + independent Go oracle",
     ),
+    'C05': dict(
+        gens=['WalFrame'],
+        props='ZanVerif.Props.C05',
+        protos=[dict(name='wal', quick_seeds=1, thorough_seeds=1)],
+        rule="save histories on a REAL wal (wal.Create in a temp dir, SegmentSizeBytes 256..4096 [16 KiB in thorough]): entries with "
+             "overwriting suffixes (index goes back after a term change), hard states, snapshot markers (local and ahead-of-log), "
+             "explicit Sync, cuts by size, optimized-fsync on/off, one history in 15 with 3x60-70 KB entries (PageWriter overflow); after "
+             "a third of the operations: every byte offset (quick: dense sample) of the region written since the last real fdatasync "
+             "as 'file ends here' (cut=) and zero-filled (trunc=), random subsets of its 512-byte sectors zeroed (zero=), random single "
+             "bit flips in the written region (flip=); every segment file is compared byte for byte (bytes); fenc/fdec: 600 frame-size "
+             "evaluations. A case is non-trivial when the real code returned a log; distinct = distinct op lines",
+        trusted=["the CRC-32C table, gogo-protobuf's generated (un)marshallers of walpb.Record / Snapshot and raftpb.Entry / HardState are modelled in "
+                 "Lean and tied by the byte-for-byte comparison of the segment files and by the reopen results only (the skipRecord/skipRaft "
+                 "texts are not regenerated)",
+                 "file-system model of the crash harness: a crash loses any suffix of the bytes written since the last fdatasync (file ends "
+                 "there, or reads as zeros) or any subset of their 512-byte sectors; directory operations (rename of the .tmp segment, "
+                 "fsync of the directory) and the preallocation (fallocate) are taken as atomic / not modelled",
+                 "the offset of the last real fdatasync is observed through one call inserted into WAL.sync by tools/instrument (build-time "
+                 "copy of wal/wal.go); in a tree in which WAL.sync no longer calls fileutil.Fdatasync(w.tail().File) the hook cannot be placed, "
+                 "no fdatasync is observed and the oracle reports `no-fdatasync-observed` / `lost-synced`",
+                 "restart = the sequence of node/raft.go (ValidSnapshotEntries, newest valid marker as if every marker had its snapshot file, "
+                 "Open, ReadAll, one Repair on any error, Open, ReadAll); snapshot files themselves (snap package) are not part of this check"],
+        partial=["bit flips: proved only for the data bytes of a record (C05_bitflip_data, concrete CRC-32C). A flipped bit in the length word, "
+                 "in the protobuf framing of the record or in the record type is NOT detected in general — the restart silently truncates the "
+                 "log (Repair takes io.ErrUnexpectedEOF for a torn tail), reads a record under another type (C05_type_not_protected), or panics "
+                 "in MustUnmarshal: findings F-C05-1..3 in known_findings.json; statement C05_bitflip_frame_full is given, false",
+                 "zero fill is proved for sector and frame boundaries (C05_truncation_zero_fill); arbitrary subsets of zeroed sectors "
+                 "(C05_torn_sector_full) are stated and exercised by the harness oracle only; zero fill from an arbitrary byte offset is false for the "
+                 "real decoder (partially zeroed sector -> crc mismatch) and outside the crash model",
+                 "theorems about ReadAll+Repair are for a WAL read from its first segment (Open at a later segment starts a decoder with crc 0 "
+                 "at a crcType record: covered by stream_head_crc for Repair, exercised for Open by the harness 'snap=' picks only)",
+                 "the effect of the header records (crc, metadata, repeated hard state at a segment head) on top of the saved items is compared "
+                 "by the harness oracle, not proved; ReadAll in write mode never reports ErrSnapshotNotFound (the error is overwritten by "
+                 "`w.encoder, err = newFileEncoder(...)`): modelled as the code behaves, reported as F-C05-4",
+                 "optimized-fsync mode: only vote/term changes are promised durable (what the fork's Save does); entries-only saves and cuts "
+                 "are written but not fdatasync'ed"],
+        assumptions=["record sizes below the decoder's 100 MB limit (the writer does not refuse larger records; they cannot be read back)",
+                     "64-bit int/uint; indexes and terms below 2^64; files shorter than 2^62 bytes"],
+        level_text="Theorems over a byte-level model whose arithmetic and decision expressions are regenerated from wal/{encoder,decoder,wal}.go, "
+                   "walpb/record.go, raft/node.go, pkg/ioutil/pagewriter.go on every run: frame-size round trip; protobuf round trip of "
+                   "Record/Entry/HardState/Snapshot; decoding the segment files of any writer history returns exactly the records written with the "
+                   "crc chain verified (C05_roundtrip, C05_writer_sealed); for EVERY byte offset at which the tail segment ends, decoding returns "
+                   "exactly the records wholly contained, ends in EOF/unexpected EOF, and ReadAll (+Repair+ReadAll as node/raft.go does) returns "
+                   "exactly the effect of that record prefix (C05_truncation_prefix, C05_restart_prefix); the same with zero fill from any sector or "
+                   "frame boundary up to an explicit crc collision (C05_truncation_zero_fill, C05_accepted_is_collision); ReadAll's effect as fold "
+                   "laws — a later entry with the same index replaces it and cuts the tail, newest hard state wins (C05_effect_prefix); one changed "
+                   "data byte always fails the chained CRC-32C check (C05_bitflip_data); Save/SaveSnapshot/Sync fdatasync everything encoded when "
+                   "not in optimized-fsync mode (C05_save_syncs). Tie: the real wal package writes the histories, every segment file is compared BYTE "
+                   "FOR BYTE with the Lean encoder, and ~10-14k damaged reopenings per run (real ValidSnapshotEntries/Open/ReadAll/Repair) are compared "
+                   "line by line with the Lean restart model; independent oracle on the Go side: the reopened log is the effect of a prefix of the "
+                   "saved items that contains everything promised durable before the lost bytes were written.",
+        level_note="bit flips outside record data, arbitrary torn-sector subsets and Open at a later segment are covered by the differential "
+                   "run and the oracle only (see partial); three robustness findings on bit flips and one masked error are recorded as known findings.",
+        technique="Lean 4 proofs over a regenerated byte-level WAL model + byte-for-byte differential run of the real wal package + crash oracle",
+    ),
     'C06': dict(
         gens=[],
         props='ZanVerif.Props.C06',
